@@ -21,6 +21,7 @@ pub fn text_builders() -> Vec<(&'static str, &'static str, Box<dyn Fn(String) ->
     b!("Iii", "msg", |t| Iii { msg: t, ..Default::default() }.into());
     b!("Mst", "msg", |t| Mst { msg: t, ..Default::default() }.into());
     b!("Mtc", "text", |t| Mtc { text: t, ..Default::default() }.into());
+    b!("Mso", "msg", |t| Mso { msg: t, ..Default::default() }.into());
     b!("Ncn", "uname", |t| Ncn { uname: t, ..Default::default() }.into());
     b!("Ncn", "pname", |t| Ncn { pname: t, ..Default::default() }.into());
     b!("Cpr", "pname", |t| Cpr { pname: t, ..Default::default() }.into());
@@ -48,6 +49,8 @@ pub fn text_builders() -> Vec<(&'static str, &'static str, Box<dyn Fn(String) ->
 
 /// (offset of the field inside the frame, width or max, raw, align, is_tail) from the regenerated layout
 pub fn locate(ls: &Layouts, kind: &str, path: &str) -> Option<(usize, usize, bool, u64, bool)> {
+    // IS_MSO has a hand-written body (no declared fields): its text starts at offset 8, is 4-aligned, at most 128 bytes
+    if kind == "Mso" && path == "msg" { return Some((8, 128, false, 4, true)); }
     let l = layout_of(ls, kind)?;
     let mut off = 2usize;
     for f in l["fields"].as_array()? {
